@@ -88,3 +88,11 @@ chk("C04", "exploration",
     "image -> tar -> image must preserve the tree and hard-link groups and the second round trip must be byte identical (images and archives); sqfs2tar -r/-X/-L variants are checked against the sub-tree expectation.",
     "Trusted: vp/tarmodel.py, Python tarfile, GNU tar, vp/sqfsimg.py. One open finding is matched by key (xattr order flips on each round trip).",
     "differential conversion against independent tar and SquashFS models", "3/C04")
+chk("C15", "exploration",
+    "Generated archives are wrapped by reference codecs (Python zlib/lzma/bz2 and libzstd via ctypes) at several levels as single streams, 2-4 concatenated members split at arbitrary and 512-aligned offsets, "
+    "gzip streams with sync-flush points and a first member shorter than the format probe, and piped into tar2sqfs (ASan) in chunks of 1..65536 bytes: the image must be identical to the uncompressed archive's. "
+    "Negative inputs (truncation at random offsets, inside the trailer, at/after flush points and inside a second member; bit flips; garbage and zero suffixes) must never give exit 0 with a different image "
+    "(unless the reference decoder accepts the damaged stream too) and never hang. Reverse: sqfs2tar -c gzip/xz/zstd/bzip2 output decoded by the reference codec must equal plain sqfs2tar for tar streams "
+    "sized around multiples of the 256 KiB wrapper buffer with incompressible content.",
+    "Reference decoders are trusted; a stream whose only damage is undetectable by the reference decoder is not judged.",
+    "differential against reference codecs, framing/chunking/negative sweeps", "3/C15")
